@@ -84,7 +84,8 @@ def run_case(case):
     def bad(kind, msg, cfg):
         return dict(status="violation", kind=kind, detail=f"[{cfg}] {msg}")
 
-    solvers = [("vi", "span"), ("vi", "max_diff"), ("per", "span"), ("pi", "max_diff"), ("sa", "max_diff")]
+    solvers = [("vi", "span"), ("vi", "max_diff"), ("per", "span"), ("pi", "max_diff"), ("sa", "max_diff"),
+               ("sas", "max_diff")]   # sas = semi-async with state shuffling
     if case["unichain"]:
         solvers.append(("rvi", "span"))
     first = {}
@@ -94,7 +95,7 @@ def run_case(case):
         for tag in case["mbs"]:
             mb = _mb(tag, S)
             kw = dict(gamma=gg, epsilon=eps, max_batch_size=mb)
-            if sv in ("vi", "sa", "pi"):
+            if sv in ("vi", "sa", "sas", "pi"):
                 kw["convergence_test"] = test
             if sv == "rvi":
                 kw.pop("gamma")
@@ -104,7 +105,9 @@ def run_case(case):
                 kw.update(max_eval_iter=100000)
             if sv == "sa":
                 kw.update(shuffle_states=False)
-            s = target.make_solver(sv, problem, **kw)
+            if sv == "sas":
+                kw.update(shuffle_states=True, random_seed=int(case["problem_id"]) * 7 + mb)
+            s = target.make_solver("sa" if sv == "sas" else sv, problem, **kw)
             shape, n_pad, part = common.partition_class(s)
             cfg = f"{sv}/{test} mb={mb} devices={shape[0]} batch_shape={shape} n_pad={n_pad} S={S}"
             if shape[0] != case["devices"]:
